@@ -220,6 +220,17 @@ func main() {
 				}
 			}
 		}
+		// a function whose contract has a postcondition tagged with this property (ensures[l]{P,...}) although the
+		// function itself is listed under other properties is verified here for those tagged clauses only
+		for _, k := range db.Order {
+			if fs := db.Funcs[k]; fs != nil && !hasProp(fs.Props, *prop) && !fs.IsIface && !fs.Assumed {
+				for _, c := range fs.Ensures {
+					if hasProp(c.Props, *prop) {
+						guardOnly[k] = true
+					}
+				}
+			}
+		}
 		for _, key := range todo {
 			fsp := db.Funcs[key]
 			if fsp == nil {
